@@ -319,6 +319,8 @@ def step (ss : Sess) (line : String) : Sess × String :=
       | ["frame", k, t] => do let k ← k.toNat?; let t ← t.toNat?; pure (Timer.Ev.frame k t)
       | ["rep"] => some Timer.Ev.rep
       | ["adv", d] => d.toInt?.map Timer.Ev.advance
+      | ["clk", d] => d.toInt?.map Timer.Ev.tick
+      | ["poll"] => some Timer.Ev.poll
       | _ => none
     match e with
     | some e =>
